@@ -18,6 +18,7 @@ mod c12;
 mod c13;
 mod c14;
 mod c15;
+mod c16;
 mod c20;
 
 fn main() {
@@ -74,6 +75,7 @@ fn main() {
         "c13" => c13::run(opts),
         "c14" => c14::run(opts),
         "c15" => c15::run(opts),
+        "c16" => c16::run(opts),
         "c20" => c20::run(opts),
         other => {
             eprintln!("unknown check {other}");
